@@ -97,6 +97,40 @@ FUNCS = [("checkPredicate", r"^bool TypeChecker::checkPredicate\(const expressio
 CLAUSES = ["FORALL", "EXISTS", "SUM"]
 
 
+STMT_MEMBERS = ["ExprStatement", "AssertStatement", "ForStatement", "WhileStatement", "DoWhileStatement", "BlockStatement",
+                "SwitchStatement", "CaseStatement", "DefaultStatement", "IfStatement", "ReturnStatement"]
+ABS_MEMBERS = ["Statement", "EmptyStatement", "ExprStatement", "AssertStatement", "ForStatement", "IterationStatement", "WhileStatement",
+               "DoWhileStatement", "BlockStatement", "SwitchStatement", "CaseStatement", "DefaultStatement", "IfStatement", "BreakStatement",
+               "ContinueStatement", "ReturnStatement"]
+
+
+def stmt_visitors():
+    src = X.Source("src/statement.cpp")
+    out = []
+    for m in ABS_MEMBERS:
+        sl = X.function(src, f"AbstractStatementVisitor::visit{m}", r"^int32_t AbstractStatementVisitor::visit%s\(%s\* stat\)" % (m, m))
+        if m == "BlockStatement":
+            sl.sub("L7:range-for(auto& statement : *stat)", r"for \(auto& statement : \*stat\) \{",
+                   "for (Statement** verif_it = stat->begin(); verif_it != stat->end(); ++verif_it) { Statement*& statement = *verif_it;", required=True)
+        out.append(sl)
+    for m in STMT_MEMBERS:
+        sl = X.function(src, f"ExpressionVisitor::visit{m}", r"^int32_t ExpressionVisitor::visit%s\(%s\* stat\)" % (m, m))
+        if m == "BlockStatement":
+            sl.sub("L7:range-for(symbol_t& symbol : stat->get_frame())", r"for \(symbol_t& symbol : stat->get_frame\(\)\) \{",
+                   "frame_t verif_frame = stat->get_frame(); for (symbol_t* verif_it = verif_frame.begin(); verif_it != verif_frame.end(); ++verif_it) { symbol_t& symbol = *verif_it;", required=True)
+            sl.sub("L7:range-for(std::unique_ptr<Statement>& s : *stat)", r"for \(std::unique_ptr<Statement>& s : \*stat\) \{",
+                   "for (Statement** verif_it2 = stat->begin(); verif_it2 != stat->end(); ++verif_it2) { Statement*& s = *verif_it2;", required=True)
+            X.lower_if_init(sl)
+            sl.sub("L15:auto*->void*", r"auto\* data = symbol\.get_data\(\)", "void* data = symbol.get_data()", required=True)
+        out.append(sl)
+    cc = X.function(src, "CollectChangesVisitor::visitExpression", r"^void CollectChangesVisitor::visitExpression\(expression_t expr\)")
+    cc.sub("L12b:collect_possible_writes->contract", r"\.collect_possible_writes\(", ".collect_possible_writes__contract(", required=True)
+    cd = X.function(src, "CollectDependenciesVisitor::visitExpression", r"^void CollectDependenciesVisitor::visitExpression\(expression_t expr\)")
+    cd.sub("L12b:collect_possible_reads->contract", r"\.collect_possible_reads\(", ".collect_possible_reads__contract(", required=True)
+    out += [cc, cd]
+    return out
+
+
 def truncate_final_else(sl):
     """Rule L18: the trailing plain `else { ... }` block of a gate chain (code that runs only when no
     error branch fired) is replaced by an empty block."""
@@ -215,6 +249,18 @@ def build(tier, work, builder):
     for c in CLAUSES:
         jobs.append(F.Job(f"c11_gate_clause_{c}", f"h_c11_gate_clause_{c}", [gobj, hgobj], timeout=300, unwind=10,
                           functions=[f"TypeChecker::checkExpression case {c}"], bound_note="arity <= 6"))
+    # ---- part 3: statement visitors ------------------------------------------------------
+    sv = stmt_visitors()
+    write(work, "stmt_visitors.inc", "\n".join(s.text for s in sv) + "\n")
+    slices += sv
+    sobj = builder.cc(os.path.join(CDIR, "st11.cpp"), includes=[work, os.path.join(X.REPO, "include")], cpp=True)
+    shobj = builder.cc(os.path.join(CDIR, "h_st11.c"), includes=[work])
+    for n in ("expr", "assert", "for", "while", "dowhile", "if", "return", "iteration", "block", "switch", "case", "default"):
+        jobs.append(F.Job(f"c11_stmt_{n}", f"h_c11_stmt_{n}", [sobj, shobj], timeout=300, unwind=6,
+                          functions=[f"ExpressionVisitor / AbstractStatementVisitor visit of a {n} statement (statement.cpp)"],
+                          bound_note="block width <= 3 statements / 3 local variables"))
+    jobs.append(F.Job("c11_collect_changes", "h_c11_collect_changes", [sobj, shobj], timeout=120, unwind=6, functions=["CollectChangesVisitor::visitExpression"]))
+    jobs.append(F.Job("c11_collect_dependencies", "h_c11_collect_dependencies", [sobj, shobj], timeout=120, unwind=6, functions=["CollectDependenciesVisitor::visitExpression"]))
     return {
         "jobs": jobs, "slices": [s.info() for s in slices],
         "drops": ["L18: the accepting else-branch of the sync / invariant gate chains", "everything around the sliced if-chains (loops over declarations, the DocumentVisitor traversal)"],
@@ -222,7 +268,7 @@ def build(tier, work, builder):
                          "flat type abstraction", "induction over tree height (meta-step)",
                          "stubs/tc_env.h: checkExpression / isCompileTimeComputable / changes_any_variable answered by ghost contracts; other callees arbitrary"],
         "assumptions": ["arity <= 4 (walkers), <= 6 (query clauses)", "well-formed nodes (arity of assignment / ++ / call / inline-if kinds as in expression_t::get_size)",
-                        "function_t::changes / depends are the callee's summaries: TypeChecker::visitFunction and the statement visitors (virtual dispatch) are NOT under contract",
+                        "statement visitors: each visit* body is under contract over flattened statement structs; the override table (which visit* runs for which statement class) and TypeChecker::visitFunction's final erase of locals/parameters are not",
                         "that every side-effect-free context of the statement reaches one of the listed gates is the traversal's property (not under contract); array sizes / range bounds (checkType) have no gate at all - see known finding"],
         "explanation": "part 1: one-level induction steps for the set-collecting walkers; part 2: every `changes_any_variable()` gate of typechecker.cpp executed with the gated expression's W != {} ghost: an error must be recorded",
     }
@@ -267,6 +313,21 @@ def replay(rec):
     cex = rec.get("counterexample", {})
     job = rec["job"]
     tried = []
+    if job.startswith("c11_stmt_"):
+        bodies = {
+            "expr": ["i++;"], "for": ["for (i = 0; j < 1; j++) {}", "int k; for (k = 0; i++ < 1; k++) {}", "int k; for (k = 0; k < 1; k++, i++) {}", "int k; for (k = 0; k < 1; k++) { i++; }"],
+            "while": ["while (i++ < 1) {}", "int k = 0; while (k < 1) { k++; i++; }"], "dowhile": ["do {} while (i++ < 1);", "int k = 0; do { k++; i++; } while (k < 1);"],
+            "if": ["if (i++ > 0) {}", "if (b) { i++; }", "if (b) {} else { i++; }"], "return": ["return i++;"], "iteration": ["for (q : int[0,1]) { i++; }"],
+            "block": ["{ i++; }", "{ int t = i++; }"], "switch": [], "case": [], "default": [], "assert": [],
+        }
+        form = job[len("c11_stmt_"):]
+        for body in bodies.get(form, []):
+            r = ctx(guard="fs() > 0", extra="int fs() { " + body + " return 1; }")
+            tried.append(body)
+            if not r.get("crashed") and not r.get("errors"):
+                return {"confirmed": True, "detail": {"function_body": body, "context": "guard fs() > 0", "result": r,
+                                                      "why": "a guard calling a function that writes a global inside this statement form is accepted"}}
+        return {"confirmed": None, "detail": {"tried": tried, "why": "no concrete model reproduces the failure"}}
     if job.startswith("c11_gate_"):
         gate = job[len("c11_gate_"):]
         cands = [(gate, w) for w in ("(i++)", "(i = 1)", "wr()", "viaref(i)")]
